@@ -23,6 +23,17 @@
 (***************************************************************************)
 EXTENDS LspMeta
 
+(***************************************************************************)
+(* Pseudo type for a class reference, so that envelopes can be roots, and  *)
+(* the type of a root [kind, name].                                        *)
+(***************************************************************************)
+ClsT(c) == [kind |-> "cls", cls |-> c]
+RootType(r) == CASE r.kind = "structure" -> [kind |-> "reference", name |-> r.name]
+                 [] r.kind = "alias" -> [kind |-> "reference", name |-> r.name]
+                 [] r.kind = "request" -> ClsT(ClsReq(r.name))
+                 [] r.kind = "response" -> ClsT(ClsResp(r.name))
+                 [] r.kind = "notification" -> ClsT(ClsNot(r.name))
+
 JNull == [k |-> "null"]
 JStr(s) == [k |-> "str", s |-> s]
 JInt(n) == [k |-> "int", i |-> n]
@@ -213,15 +224,14 @@ Shape(o, t) ==
 (***************************************************************************)
 (* Lossless(j, w): type-free structural check - every key of j at every    *)
 (* depth is in w with a lossless value; arrays keep their length; scalars  *)
-(* are equal.  A key carrying null in j may be absent from w (null ~       *)
-(* absent at omittable positions, section 4.2 of DESIGN).                   *)
+(* are equal.  (Values are generated without null at omittable positions,  *)
+(* DESIGN 4.2, so no null ~ absent tolerance is needed here.)              *)
 (***************************************************************************)
 RECURSIVE Lossless(_, _)
 Lossless(j, w) ==
     CASE j.k = "obj" -> /\ w.k = "obj"
                         /\ \A key \in DOMAIN j.f :
-                              IF key \in DOMAIN w.f THEN Lossless(j.f[key], w.f[key])
-                              ELSE j.f[key].k = "null"
+                              key \in DOMAIN w.f /\ Lossless(j.f[key], w.f[key])
       [] j.k = "arr" -> /\ w.k = "arr" /\ Len(w.a) = Len(j.a)
                         /\ \A i \in DOMAIN j.a : Lossless(j.a[i], w.a[i])
       [] OTHER -> JEq(w, j)
@@ -240,8 +250,7 @@ RTProps(j, w, props) ==
     /\ \A key \in DOMAIN j.f :
           IF key \in DOMAIN w.f
           THEN HasProp(props, key) /\ RT(j.f[key], w.f[key], PropNamed(props, key).type)
-          ELSE \/ j.f[key].k = "null"
-               \/ ~HasProp(props, key)                    \* undeclared keys are dropped (C15)
+          ELSE ~HasProp(props, key)                       \* undeclared keys are dropped (C15)
     /\ \A key \in DOMAIN w.f \ DOMAIN j.f :
           /\ HasProp(props, key)
           /\ AlwaysWritten(PropNamed(props, key))
@@ -257,7 +266,10 @@ RT(j, w, t) ==
                              /\ \A i \in DOMAIN j.a : RT(j.a[i], w.a[i], t.element)
       [] t.kind = "map" -> /\ j.k = "obj" /\ w.k = "obj" /\ DOMAIN j.f = DOMAIN w.f
                            /\ \A key \in DOMAIN j.f : RT(j.f[key], w.f[key], t.value)
-      [] t.kind = "or" -> \E i \in DOMAIN t.items : Valid(j, t.items[i]) /\ RT(j, w, t.items[i])
+      \* some alternative valid for j explains w, and nothing any valid reading declares is lost
+      \* ("whichever union alternative the converter chooses")
+      [] t.kind = "or" -> /\ \E i \in DOMAIN t.items : Valid(j, t.items[i]) /\ RT(j, w, t.items[i])
+                          /\ Lossless(j, w)
       [] t.kind = "and" -> RTProps(j, w, AndProps(t.items))
       [] t.kind = "tuple" -> /\ j.k = "arr" /\ w.k = "arr" /\ Len(j.a) = Len(w.a)
                              /\ Len(j.a) = Len(t.items)
